@@ -105,3 +105,81 @@ func VH_c06_recvloop() {
 		vReach("withdraw")
 	}
 }
+
+// C06 (the session's error-handling mode): the flags the receive path consults (treat-as-withdraw,
+// eBGP) are put in force by the real fsm.stateChange(Established) for every kind of peer - with or
+// without the 4-octet AS capability in its OPEN - and a malformed UPDATE whose strongest class is
+// treat-as-withdraw (MED with a bad length) read by the real recvMessageloop then gets that reaction
+// exactly when revised error handling is configured, a session reset otherwise.
+func VH_c06_session_mode() {
+	ebgp, revised, four := vBool("ebgp"), vBool("revised_error_handling"), vBool("peer_sent_four_octet_as_capability")
+	fams := []bgp.Family{bgp.RF_IPv4_UC}
+	g := &oc.Global{}
+	g.Config.As, g.Config.RouterId = 65000, vAddr4(1, 1, 1, 1)
+	peerAS := uint32(65000)
+	if ebgp {
+		peerAS = 65001
+	}
+	c := vNeighbor(2, peerAS, 65000, fams)
+	c.Timers.Config.HoldTime, c.Timers.Config.KeepaliveInterval = 90, 30
+	c.ErrorHandling.Config.TreatAsWithdraw = revised
+	caps := []bgp.ParameterCapabilityInterface{bgp.NewCapMultiProtocol(bgp.RF_IPv4_UC)}
+	if four {
+		caps = append(caps, bgp.NewCapFourOctetASNumber(peerAS))
+	}
+	open, _ := bgp.NewBGPOpenMessage(uint16(peerAS), 90, vAddr4(2, 2, 2, 2), []bgp.OptionParameterInterface{bgp.NewOptionParameterCapability(caps)})
+	f := newFSM(g, c, bgp.BGP_FSM_OPENCONFIRM, vLogger())
+	f.conn = newVConn(nil, true)
+	f.recvOpen = open
+	f.stateChange(bgp.BGP_FSM_ESTABLISHED, newfsmStateReason(fsmOpenMsgNegotiated, nil, nil))
+	vAssert(f.isTreatAsWithdraw == revised, "the session does not run with the configured error-handling mode")
+	vAssert(f.isEBGP == ebgp, "the session's eBGP flag does not follow the peer's AS")
+
+	// ORIGIN, AS_PATH (in the width the session uses), NEXT_HOP, MED with length 3, one /16
+	var seg bgp.AsPathParamInterface = bgp.NewAsPathParam(bgp.BGP_ASPATH_ATTR_TYPE_SEQ, []uint16{uint16(peerAS)})
+	if four {
+		seg = bgp.NewAs4PathParam(bgp.BGP_ASPATH_ATTR_TYPE_SEQ, []uint32{peerAS})
+	}
+	nh, _ := bgp.NewPathAttributeNextHop(vAddr4(10, 0, 0, 2))
+	var attrs []byte
+	asp := bgp.NewPathAttributeAsPath([]bgp.AsPathParamInterface{seg})
+	if !ebgp {
+		asp = bgp.NewPathAttributeAsPath(nil)
+	}
+	for _, a := range []bgp.PathAttributeInterface{bgp.NewPathAttributeOrigin(0), asp, nh} {
+		b, _ := a.Serialize()
+		attrs = append(attrs, b...)
+	}
+	if !ebgp {
+		b, _ := bgp.NewPathAttributeLocalPref(100).Serialize()
+		attrs = append(attrs, b...)
+	}
+	attrs = append(attrs, 0x80, byte(bgp.BGP_ATTR_TYPE_MULTI_EXIT_DISC), 3, 0, 0, 1)
+	body := []byte{0, 0, byte(len(attrs) >> 8), byte(len(attrs))}
+	body = append(body, attrs...)
+	body = append(body, 16, 10, 1)
+	total := 19 + len(body)
+	wire := make([]byte, 16, total)
+	for i := range wire {
+		wire[i] = 0xff
+	}
+	wire = append(wire, byte(total>>8), byte(total), bgp.BGP_MSG_UPDATE)
+	wire = append(wire, body...)
+	var got []*fsmMsg
+	h := &fsmHandler{fsm: f, callback: func(m *fsmMsg) { got = append(got, m) }}
+	wg := &sync.WaitGroup{}
+	wg.Add(1)
+	h.recvMessageloop(context.Background(), newVConn(wire, false), make(chan struct{}, 2), make(chan fsmStateReason, 3), wg)
+	var notif *bgp.BGPMessage
+	select {
+	case notif = <-f.notification:
+	default:
+	}
+	if revised {
+		vAssert(notif == nil && len(got) == 1 && got[0].handling == bgp.ERROR_HANDLING_TREAT_AS_WITHDRAW, "with revised error handling configured a MED of bad length is not treated as a withdrawal (the session was reset or the route kept)")
+		vReach("withdraw")
+	} else {
+		vAssert(notif != nil && len(got) == 0, "without revised error handling a malformed UPDATE does not reset the session")
+		vReach("reset")
+	}
+}
